@@ -5,8 +5,11 @@ package mgen
 
 import (
 	"encoding/binary"
+	"encoding/json"
+	"errors"
 	"fmt"
 	"os"
+	"os/exec"
 	"path/filepath"
 	"strings"
 	"time"
@@ -275,4 +278,47 @@ func WriteCounterFile(t *simrt.Tape, s *simrt.Sim, dir string, begin time.Time, 
 		panic(err)
 	}
 	s.SetMtime(path, s.NowT())
+}
+
+// ServeConfig makes the simulated `go` command answer `go mod download -json
+// golang.org/x/telemetry/config@<version>`, the command the real
+// configstore.Download runs: fn decides what the config store returns for a
+// request (the task that asks is simrt.Cur()); the configuration is written as
+// config.json into a fresh module directory under dir and the command prints
+// that directory and the canonical version, as the go command does. An error
+// from fn makes the command fail with the go command's {"Error": ...} output.
+// before, when not nil, runs first (a harness may let the command be a process
+// of the simulated process table that does things of its own).
+func ServeConfig(s *simrt.Sim, dir string, before func(cmd *exec.Cmd) error, fn func(version string, env []string) (*telemetry.UploadConfig, string, error)) {
+	n := 0
+	s.RunFn = func(cmd *exec.Cmd) (bool, error) {
+		a := cmd.Args
+		if len(a) != 5 || a[0] != "go" || a[1] != "mod" || a[2] != "download" || a[3] != "-json" || !strings.HasPrefix(a[4], "golang.org/x/telemetry/config@") {
+			return false, nil
+		}
+		simrt.Yield("proc:run " + strings.Join(a, " "))
+		if before != nil {
+			if err := before(cmd); err != nil {
+				return true, err
+			}
+		}
+		cfg, ver, err := fn(strings.TrimPrefix(a[4], "golang.org/x/telemetry/config@"), cmd.Env)
+		if err != nil {
+			if cmd.Stdout != nil {
+				js, _ := json.Marshal(map[string]string{"Error": err.Error()})
+				cmd.Stdout.Write(js)
+			}
+			return true, errors.New("exit status 1")
+		}
+		n++
+		mod := filepath.Join(dir, "modcache", fmt.Sprintf("config@%s-%d", ver, n))
+		os.MkdirAll(mod, 0777)
+		js, _ := json.MarshalIndent(cfg, "", "\t")
+		os.WriteFile(filepath.Join(mod, "config.json"), js, 0666)
+		if cmd.Stdout != nil {
+			out, _ := json.Marshal(map[string]string{"Path": "golang.org/x/telemetry/config", "Version": ver, "Dir": mod})
+			cmd.Stdout.Write(out)
+		}
+		return true, nil
+	}
 }
